@@ -61,7 +61,7 @@ impl IndicatorConfig for ChandeMomentumOscillator {
 	}
 
 	fn validate(&self) -> bool {
-		self.zone >= 0. && self.zone <= 1.0 && self.period > 1
+		self.zone >= 0. && self.zone <= 1.0 && self.period > 1 && self.period < PeriodType::MAX
 	}
 
 	fn set(&mut self, name: &str, value: String) -> Result<(), Error> {
